@@ -255,16 +255,40 @@ def triple(x):
     return (_TD_DAYS(x), _TD_SECS(x), _TD_US(x))
 
 
-def fields(d):
-    """native triple + public components of a Duration"""
-    return triple(d) + (d.years, d.months, d.weeks, d.remaining_days, d.hours, d.minutes, d.remaining_seconds, d.microseconds)
+_ACC = ("years", "months", "weeks", "remaining_days", "hours", "minutes", "remaining_seconds", "microseconds")
+
+
+def fields(d, order=0):
+    """native triple + public components of a Duration. The accessors are lazily cached on the instance, so the ORDER in
+    which they are first read is part of the input space: `order` (derived from the op) selects a permutation of the reads;
+    the reply is always assembled in the canonical order."""
+    if order == 0:
+        seq = range(8)
+    else:
+        seq = list(range(8))
+        # a deterministic permutation per order value: rotate + optional reversal + one swap
+        k = order % 8
+        seq = seq[k:] + seq[:k]
+        if (order // 8) % 2:
+            seq.reverse()
+        i, j = (order // 16) % 8, (order // 128) % 8
+        seq[i], seq[j] = seq[j], seq[i]
+    vals = [None] * 8
+    for i in seq:
+        vals[i] = getattr(d, _ACC[i])
+    return triple(d) + tuple(vals)
 
 
 def impl(op, backend):
     kind, y, mo, w, dd, h, mi, s, ms, us = op
     cls = _H["Duration"] if kind == "dur" else _H["AbsoluteDuration"]
     d = cls(years=y, months=mo, weeks=w, days=dd, hours=h, minutes=mi, seconds=s, milliseconds=ms, microseconds=us)
-    f = fields(d)
+    # access order derived from the arguments (deterministic, varied): see fields()
+    order = (abs(y) * 7 + abs(mo) * 3 + abs(w) + abs(dd) * 5 + abs(h) * 11 + abs(mi) * 13 + abs(s) * 17 + abs(ms) + abs(us)) % 1024
+    f = fields(d, order)
+    d0 = cls(years=y, months=mo, weeks=w, days=dd, hours=h, minutes=mi, seconds=s, milliseconds=ms, microseconds=us)
+    if fields(d0, 0) != f:
+        return "err AccessOrderDependence %r %r" % (fields(d0, 0), f)
     ins = (d.in_weeks(), d.in_days(), d.in_hours(), d.in_minutes(), d.in_seconds())
     for v in f + ins:
         if type(v) is not int:
